@@ -30,11 +30,23 @@ func (pr *Printer) File(f *File) string {
 	pr.b.Reset()
 	pr.file = f.Path
 	pr.line = 1
+	clause := 0
+	ws := func() {
+		if clause < len(f.HdrWS) {
+			if strings.TrimSpace(f.HdrWS[clause]) != "" {
+				panic(OutOfModel{"header whitespace must be whitespace"})
+			}
+			pr.w(f.HdrWS[clause])
+		}
+		clause++
+	}
 	if f.Extends != "" {
 		pr.w(pr.L + "extends " + strconv.Quote(f.Extends) + pr.R)
+		ws()
 	}
 	for _, im := range f.Imports {
 		pr.w(pr.L + "import " + strconv.Quote(im) + pr.R)
+		ws()
 	}
 	pr.list(f.Body)
 	return pr.b.String()
